@@ -43,6 +43,19 @@ Proof.
   eexists. split; [reflexivity|]. repeat split; vm_compute; reflexivity.
 Qed.
 
-(* the guard of the refinement / incrF_result theorems is satisfiable (and its negation too: incrF_wrap_refuted) *)
-Example incr_in_range_ex : incr_in_range (mkV (SYNCVAR_INITIALIZE_TO 5) None) (IncrF 3).
+(* regression for the defect fixed by /repo 70f90aa (incrF returned and delivered the unreduced 64-bit sum): payload 2^60-1,
+   a readFF and a readFE waiter, incrF 1 -> the call returns 0, both readers get 0, the variable holds 0 *)
+Definition init3 : state := [(0, mkV (SYNCVAR_EMPTY_INITIALIZE_TO (two60 - 1)) None)].
+Example incrF_wrap_regression :
+  exists s tr, run init3 [(1, 0, ReadFF true); (2, 0, ReadFE true); (3, 0, IncrF 1)] = (s, tr) /\
+    nth 2 tr [] = [Ret 3 RC_SUCCESS (Some 0); Ret 1 RC_SUCCESS (Some 0); Ret 2 RC_SUCCESS (Some 0)] /\
+    exists x, lookup s 0 = Some x /\ data_of (word x) = 0 /\ state_of (word x) = 2 /\ rec x = None.
+Proof.
+  eexists. eexists. split; [vm_compute; reflexivity|]. split; [reflexivity|].
+  eexists. split; [reflexivity|]. repeat split; vm_compute; reflexivity.
+Qed.
+
+Example incrF_wrap_regression_full :
+  step_var (mkV (SYNCVAR_INITIALIZE_TO (two60 - 1)) None) 7 (IncrF 1) =
+  (mkV (build_unlocked 0 0) None, [Ret 7 RC_SUCCESS (Some 0)]).
 Proof. vm_compute. reflexivity. Qed.
